@@ -13,7 +13,8 @@ PROP = "C13"
 RULE = ("calibrate_thermal on all 17 spacecraft x 3 thermal channels: passes of 60..200 lines with telemetry in the operating "
         "range (target 285..305 K, the four thermometers at equal or different temperatures, passes of 52..120 lines, C_S 950..1000, C_BB from the target temperature), ALL counts 0..1023 on sampled lines "
         "(monotonicity), count = smoothed target count (anchor), five starting phases of one underlying line stream "
-        "(phase-freedom, lines further than 25 from either end), permuted pixels (locality). A case = (spacecraft, "
+        "(phase-freedom, lines further than 25 from either end), permuted pixels (locality); the anchor also through the KLM readers on "
+        "passes where channel 3a is active for the middle third (its calibration views then read low counts). A case = (spacecraft, "
         "channel, telemetry level); non-trivial = all")
 ASSUME = ["the anchor is checked on target/space counts constant along the pass and each thermometer constant (the four may differ): the expected target temperature is the mean of the four PRT polynomial values",
           "float64 monotonicity is checked with a 1e-9 K slack"]
@@ -130,6 +131,52 @@ def run(res, tier, seed):
         kind, b = call_impl(cal, chan, stream_l, prt3, ict10, space10, cnt2)
         if kind == 3 and not np.array_equal(a[:, 0], b[:, 0], equal_nan=True):
             res.violations.append(("result for a pixel depends on the other pixels of its line", dict(spacecraft=sc, channel=thermal.IR[chan])))
+        res.traces += 1
+    # ---------- through the readers: channel 3a active for a part of the pass (its target / space readings are then low) ----------
+    import datetime
+    import l1b
+    for fmt, sc in (("gac_klm", "noaa16"), ("lac_klm", "metopa")):
+        co = co_all[sc]
+        n = 300 if fmt == "gac_klm" else 120
+        seg = range(n // 3, 2 * n // 3)
+        first, residue = rng.choice([1, 2, 3, 4, 5]), rng.randrange(5)
+        lns = list(range(first, first + n))
+        tgt = rng.choice([288.0, 295.0, 301.0])
+        tv = {k: prt_for_temperature(co, k, tgt) for k in range(1, 5)}
+        tmean4 = sum(tv[k][1] for k in range(1, 5)) / 4.0
+        cbb, cs = (rng.randrange(620, 760), rng.randrange(360, 460), rng.randrange(360, 460)), (990, 991, 992)
+        W = l1b.FMT[fmt]["width"]
+        samples = []
+        for p_ in range(W):
+            samples += [300, 310, cbb[0] if p_ == 0 else 400 + p_ % 500, cbb[1] if p_ == 0 else 350 + p_ % 400, cbb[2] if p_ == 0 else 360 + p_ % 380]
+        start = datetime.datetime(2003, 3, 4, 5, 6, 7) if sc == "noaa16" else datetime.datetime(2010, 3, 4, 5, 6, 7)
+        lines = l1b.default_lines(fmt, n, start, numbers=lns, counts=samples, switch=[1 if i in seg else 0 for i in range(n)])
+        for i, l in enumerate(lines):
+            k = (lns[i] - residue) % 5
+            s3 = 0 if k == 0 else tv[k][0]
+            a, b_ = divmod(s3, 3)
+            l["prt"] = [a + (1 if b_ > 0 else 0), a + (1 if b_ > 1 else 0), a]
+            c3i, c3s = (40, 41) if i in seg else (cbb[0], cs[0])      # 3a on: the channel-3 calibration views read visible-channel levels
+            l["ict"] = [c3i, cbb[1], cbb[2]] * 10
+            l["space"] = [40, 40, c3s, cs[1], cs[2]] * 10
+        ctx = dict(reader=fmt, spacecraft=sc, lines=n, channel_3a_on=[seg[0], seg[-1]], first_line=first, residue=residue,
+                   mean_prt_temperature=tmean4, target_counts=list(cbb), seed=seed)
+        try:
+            r = impl.open_reader(fmt, l1b.build_file(fmt, sc, start, lines), adjust_clock_drift=False)
+            ch = r.get_calibrated_channels()
+        except Exception as e:  # noqa
+            res.violations.append(("reader pipeline raised %r" % (e,), ctx))
+            continue
+        for chan in range(3):
+            col = ch[:, 0, 3 + chan]
+            for i in range(n):
+                if chan == 0 and i in seg:
+                    continue      # 3b is not delivered on these lines (C14)
+                if math.isnan(col[i]) or abs(float(col[i]) - tmean4) > 1.0:
+                    res.violations.append(("through the reader, a scene at the internal-target count does not read the internal-target temperature within 1 K",
+                                           dict(ctx, channel=thermal.IR[chan], line_index=i, bt=float(col[i]))))
+                    break
+        res.add_case(("reader", fmt, sc, first, residue, tgt), True, ctx)
         res.traces += 1
     res.notes["worst_anchor_deviation_K"] = worst_anchor
     failing, logs = common.coq_eval("c13", "From PV Require Import M_ThermalCheck.", "check_thermal", [c for c, _ in coq], shard=8,
